@@ -10,6 +10,10 @@ def conditions(tier):
           dict(module=H, func="_foldt3", cases=6, what="fold over 3 tuple-valued contributions (TupleVSpace), aliasing"),
           dict(module=H, func="_foldt4", cases=24, what="fold over 4 tuple-valued contributions"),
           dict(module="vf.ch.h_c19", func="_reuse_after_fault", cases=8, what="the VJP function is reused after one of its calls failed part-way through the backward pass", timeout={"quick": 200, "thorough": 600}),
+          dict(module=H, func="_foldb3", cases=8 * 6, what="the fold over 3 contributions executed under an enclosing trace (contributions are boxes: higher-order differentiation): the values inside the boxes are never written"),
+          dict(module=H, func="_foldb4", cases=16 * 24, what="boxed fold over 4 contributions", timeout={"quick": 240, "thorough": 900}),
+          dict(module=H, func="_foldb_reach", expect="counterexample", what="reachability twin (boxed fold)"),
+          dict(module="vf.ch.h_ext", func="_contract3", cases=4 * 7 * 7, what="VJP function of a trace through a 3-ary user primitive called twice: second call gives the full sum again (no one-shot state in the dispatch)", timeout={"quick": 240, "thorough": 900}),
           dict(module=H, func="_fold_reach", expect="counterexample", what="reachability twin"),
           dict(module=H, func="_alias3", cases=36 * 3, what="3-op programs whose rules return the incoming cotangent object; vjp called 3 times in symbolic order with two cotangents", timeout={"quick": 180, "thorough": 900}),
           dict(module=H, func="_alias3_planted", expect="counterexample", what="planted ownership bug (second contribution accumulated in place into the first)")]
